@@ -62,6 +62,9 @@ def render(p, rust):
         return _digits(p["neg"], p["d"])
     if t == "flt":
         return _float_text(p["neg"], p["d"], p["e"])
+    if t == "fle":
+        base = _digits(p["neg"], p["d"]) if p["e"] == 0 else _float_text(p["neg"], p["d"], p["e"])
+        return base + [101] + ([45] if p["xneg"] else []) + [48 + x for x in p["x"]]
     if t == "str":
         return _str_text(p["s"])
     if t == "chr":
@@ -129,7 +132,13 @@ def _valid_psym(s):
 
 
 def _rand_atom(rng):
-    k = rng.randrange(13)
+    k = rng.randrange(14)
+    if k == 13:
+        a = str(rng.randrange(0, 10 ** rng.randrange(1, 5)))
+        b = "".join(rng.choice("0123456789") for _ in range(rng.randrange(0, 4)))
+        x = rng.randrange(-30, 31)
+        return {"t": "fle", "neg": rng.random() < 0.4, "d": [int(c) for c in a + b], "e": -len(b), "xneg": x < 0,
+                "x": [int(c) for c in str(abs(x))]}
     if k == 0:
         n = rng.choice([rng.randrange(-2147483647, 2147483648), rng.randrange(-50, 50)])
         return {"t": "int", "neg": n < 0, "d": [int(c) for c in str(abs(n))]}
